@@ -34,7 +34,7 @@ COMPONENTS = {
     "stand_ins": ["file objects (SimText/SimBytes)", "open() on the path route (router with write-back on close)", "process locale (encoding of text files opened without one)", "I/O errors"],
 }
 ASSUMPTIONS = [
-    "nothing is asserted about torn files (a prefix of a valid file can be a valid shorter file; C13 states no recovery guarantee)",
+    "about a file that lost its last rows only this is asserted: loadtxt raises or returns the shape the numpoly header states (never a shorter array)",
     "save and load of one run use the same simulated locale",
     "a short count returned by a raw stream to numpy's row writer (which ignores it) is undecided; returned to numpoly code and ignored there, it is judged",
     "pickling compares canonical (non-zero) terms: __reduce__ drops all-zero terms by design",
@@ -430,6 +430,28 @@ class Runner:
                 self.violate("text-roundtrip", "loadtxt", sid, f"target {kind} locale {step['locale']} fmt {step['fmt']!r} delimiter {step['delimiter']!r} comments {step['comments']!r} header {step['header']!r} shape {p.shape} view {step['view']}: {msg}",
                              dict(where, view=step["view"]))
             nreads = fr.reads
+            # ---- a file that lost its last data rows (an unacknowledged save, a copy cut at a line boundary): the header
+            # still states the shape, so loading raises or restores that shape - never a shorter array
+            if msg is None and kind.startswith("sim") and p.size > 1 and not step.get("footer"):
+                content = target.getvalue()
+                nl = "\n" if isinstance(content, str) else b"\n"
+                lines = content.split(nl)
+                body = [ln for ln in lines if ln.strip()]
+                for drop in (1, 2):
+                    if len(body) - drop < 2:
+                        break
+                    cut = nl.join(body[: len(body) - drop]) + nl
+                    torn = fileseam.SimText(cut) if isinstance(content, str) else fileseam.SimBytes(cut)
+                    self.bump("fault:torn_file.configured")
+                    try:
+                        got = numpoly.loadtxt(torn, **load_kw)
+                    except Exception:  # noqa: BLE001
+                        self.bump("fault:torn_file.fired")
+                        continue
+                    self.bump("fault:torn_file.fired")
+                    if isinstance(got, numpoly.ndpoly) and tuple(got.shape) != tuple(p.shape):
+                        self.violate("torn-file-shape", "loadtxt", sid, f"{drop} data row(s) missing: loadtxt returned shape {got.shape}, the header says {p.shape}", where)
+                        break
             # ---- read faults: every k
             if step.get("fault") == "read" and msg is None:
                 for k in range(1, nreads + 1):
